@@ -184,6 +184,12 @@ func shiftDateVal(v interface{}, clk, delta int64) interface{} {
 		if d := int64(x) - clk; d > -48*3600e3 && d < 48*3600e3 {
 			return primitive.DateTime(int64(x) + delta)
 		}
+		for _, ttl := range apiBigTTLs {
+			// dates generated around clock − (a large lifetime)
+			if d := int64(x) - (clk - int64(ttl)*1000); d > -48*3600e3 && d < 48*3600e3 {
+				return primitive.DateTime(int64(x) + delta)
+			}
+		}
 	case bson.D:
 		for i := range x {
 			x[i].Value = shiftDateVal(x[i].Value, clk, delta)
@@ -453,7 +459,7 @@ func init() {
 			"C03 (the catalog that was current before a call dumps identically after it; one held catalog, one decoded find result and one unread cursor are re-read at the end), " +
 			"C13 also for the target of find-and-modify calls, C19, C20 run on the implementation alone; " +
 			"key equality and order in the C07/C13/C15 oracles come from an own path walk and an exact big.Rat comparison of numbers; " +
-			"~20% of the well-formed histories follow an index scenario (partial-filter moves, key shifts/swaps in one multi-update, unique build over duplicates, bulk with a failing model, multikey arity changes, 4–5 column compound multikey keys, numeric edge keys) " +
+			"~20% of the well-formed histories follow an index scenario (partial-filter moves, key shifts/swaps in one multi-update, unique build over duplicates, bulk with a failing model, multikey arity changes, 4–5 column compound multikey keys, numeric edge keys, index builds that fail late on a partial filter raising an error for some documents, drops aimed at the _id index) " +
 			"and a third of the sorts on indexed collections use an index key as the sort specification; " +
 			"non-trivial = a successful call that changed the state or returned/matched something",
 		Gen: func(r *gen.R, idx int) []run.Case {
